@@ -44,14 +44,14 @@ Print Assumptions C01_config_transparent.
 (* cache_coherent: for EVERY history of blocks (votes, candidate registration, NEO transfers, Policy block/unblock,
    settings, committee refresh at epoch boundaries, ...) the incrementally maintained caches are coherent with storage
    after every block (repaired code) *)
-Theorem C01_cache_coherent : forall cfg, cfg_wf cfg -> fix_block_dirty cfg = true -> fix_gpv_drop cfg = true ->
+Theorem C01_cache_coherent : forall cfg, cfg_wf cfg -> fix_block_dirty cfg = true -> fix_gpv_drop cfg = true -> fix_whitelist cfg = true ->
   0 < csize cfg -> forall bs, blocks_ok cfg bs -> Coh cfg (reach cfg bs).
 Proof. exact cache_coherent. Qed.
 Print Assumptions C01_cache_coherent.
 
 (* ... hence a node restarted after any block gives the same answers (committee, next block validators, validators of
    the next epoch, blocked accounts, fee settings, register price) over the same storage, and is coherent again *)
-Theorem C01_restart_answers_and_coherence : forall cfg, cfg_wf cfg -> fix_block_dirty cfg = true -> fix_gpv_drop cfg = true ->
+Theorem C01_restart_answers_and_coherence : forall cfg, cfg_wf cfg -> fix_block_dirty cfg = true -> fix_gpv_drop cfg = true -> fix_whitelist cfg = true ->
   0 < csize cfg -> forall bs, blocks_ok cfg bs ->
   obs cfg (reinit cfg (reach cfg bs)) = obs cfg (reach cfg bs)
   /\ sto (reinit cfg (reach cfg bs)) = sto (reach cfg bs)
@@ -65,7 +65,7 @@ Print Assumptions C01_restart_answers_and_coherence.
    changes — votesChanged, the gas-per-vote cache, shadowed duplicates in the gas-per-block cache — is preserved by every
    operation of the model with equal results; where the two nodes take different branches (one recomputes the
    next-epoch committee, the other does not) coherence makes the outcomes equal. *)
-Theorem C01_restart_transparent : forall cfg, cfg_wf cfg -> fix_block_dirty cfg = true -> fix_gpv_drop cfg = true ->
+Theorem C01_restart_transparent : forall cfg, cfg_wf cfg -> fix_block_dirty cfg = true -> fix_gpv_drop cfg = true -> fix_whitelist cfg = true ->
   0 < csize cfg -> forall bs bs', blocks_ok cfg bs -> blocks_ok cfg bs' ->
   sto (fold_left (step cfg) bs' (reinit cfg (reach cfg bs))) = sto (fold_left (step cfg) bs' (reach cfg bs))
   /\ obs cfg (fold_left (step cfg) bs' (reinit cfg (reach cfg bs))) = obs cfg (fold_left (step cfg) bs' (reach cfg bs)).
@@ -73,7 +73,7 @@ Proof. exact restart_transparent_full. Qed.
 Print Assumptions C01_restart_transparent.
 
 (* ... and with any number of restarts at any block boundaries ([gstep]: a block or a restart) *)
-Theorem C01_restarts_transparent : forall cfg, cfg_wf cfg -> fix_block_dirty cfg = true -> fix_gpv_drop cfg = true ->
+Theorem C01_restarts_transparent : forall cfg, cfg_wf cfg -> fix_block_dirty cfg = true -> fix_gpv_drop cfg = true -> fix_whitelist cfg = true ->
   0 < csize cfg -> forall es, blocks_ok cfg (gblocks es) ->
   sto (fold_left (gstep cfg) es (genesis cfg)) = sto (reach cfg (gblocks es))
   /\ obs cfg (fold_left (gstep cfg) es (genesis cfg)) = obs cfg (reach cfg (gblocks es)).
@@ -99,11 +99,20 @@ Theorem C01_restart_refuted_F23 :
 Proof. exact restart_refuted_F23. Qed.
 Print Assumptions C01_restart_refuted_F23.
 
+(* F47 — Policy.setWhitelistFeeContract on an existing entry updates storage only: the running node keeps charging the
+   old whitelisted fee, a restarted node the new one *)
+Theorem C01_restart_refuted_F47 :
+  let cfg := w_cfg47 false in
+  cfg_wf cfg /\ blocks_ok cfg w_f47
+  /\ whitelisted_fee (reach cfg w_f47) 2 <> whitelisted_fee (reinit cfg (reach cfg w_f47)) 2.
+Proof. exact restart_refuted_F47. Qed.
+Print Assumptions C01_restart_refuted_F47.
+
 (* non-vacuity: the hypotheses of C01_cache_coherent hold for a concrete configuration and history (the F7 and F23
    histories on the repaired settings), where the committee was elected and changes *)
 Example C01_example :
   let cfg := w_cfg true true in
-  cfg_wf cfg /\ fix_block_dirty cfg = true /\ fix_gpv_drop cfg = true /\ 0 < csize cfg /\ blocks_ok cfg w_f7
+  cfg_wf cfg /\ fix_block_dirty cfg = true /\ fix_gpv_drop cfg = true /\ fix_whitelist cfg = true /\ 0 < csize cfg /\ blocks_ok cfg w_f7
   /\ committee_sorted (reach cfg w_f7) = [1;2;3]%N
   /\ compute_next_validators cfg (reach cfg w_f7) = [0;1]%N
   /\ sto (step cfg (reach cfg w_f23) w_f23_next) = sto (step cfg (reinit cfg (reach cfg w_f23)) w_f23_next).
